@@ -678,6 +678,36 @@ def corr_fock(ctx, B):
                   lambda r, out=out: None if r == simcorr.flat(out) else ("model", "impl differs"))
 
 
+def corr_hermite(ctx, B):
+    """`fockbackend/ops.hermiteVals` (memoised with lru_cache) vs Measure.{linspacePt, hermiteVals}: consecutive calls that
+    differ in ONE argument only (grid maximum, number of bins, frequency, cutoff), each repeated later"""
+    from strawberryfields.backends.fockbackend import ops as fops
+    rng = ctx.rng
+    base = [rng.choice([2, 3, 2.5]), rng.randint(3, 9), rng.choice([1.0, 0.25, 4.0]), rng.randint(2, 7)]
+    calls = [tuple(base)]
+    for _ in range(ctx.n(10, 60)):
+        c = list(calls[-1])
+        j = rng.randrange(4)
+        c[j] = [rng.choice([2, 3, 2.5, 1.5]), rng.randint(3, 9), rng.choice([1.0, 0.25, 4.0]), rng.randint(2, 7)][j]
+        calls.append(tuple(c))
+        if rng.random() < 0.3:
+            calls.append(rng.choice(calls))           # an earlier configuration again (served from the cache)
+    for (q, nb, mw, trunc) in calls:
+        case = dict(kind="hermite", q=q, nb=nb, m_omega_over_hbar=mw, trunc=trunc)
+        ctx.count("corr:fock:hermite", case, True, sample=case)
+        try:
+            grid, H = fops.hermiteVals(q, nb, mw, trunc)
+            Hm = np.array([np.broadcast_to(np.asarray(h, dtype=float), (nb,)) for h in H])
+        except Exception as e:  # noqa: BLE001
+            ctx.corr_cases += 1
+            ctx.disagree("Measure.hermiteVals vs ops.hermiteVals", case, "a table", f"raised {type(e).__name__}: {e}")
+            continue
+        B.add(dict(op="meas.hermite", q=m6.rat(q), s=m6.rat(math.sqrt(mw)), nb=nb, trunc=trunc),
+              "Measure.{linspacePt, hermiteVals} vs fockbackend ops.hermiteVals", case,
+              lambda r, grid=np.array(grid, dtype=float), Hm=Hm: None if m6.close(grid, m6.unrvec(r["grid"]), 1e-12) and
+              m6.close(Hm, m6.unrmat(r["H"]), 1e-10) else (dict(grid=r["grid"]), dict(grid=grid.tolist(), H=Hm.tolist())))
+
+
 def corr_fock_dist(ctx, B):
     """the probabilities `Circuit.measure_fock` hands to numpy.random.choice vs `Measure.fockDist` on integer-valued
     density tensors (exact): which axes are traced, which diagonal entry sits at which flat position"""
@@ -826,6 +856,10 @@ def sampler_one(ctx, B, case):
         u = us[min(k, len(us) - 1)]
         pd = sum(w * pf * e for w, (pf, e) in zip(w0, fac))
         ub = sum(abs(w) * pf * e for w, (pf, e) in zip(w0, fac) if not w < 0)
+        # the envelope implied by the recorded proposal (Z fixed by the first envelope peak); equals `ub` for the documented weights
+        a_k, p_k = [int(i) for i in ch[k]["a"]], np.asarray(ch[k]["p"], dtype=float)
+        if a_k and p_k[0] > 0:
+            ub = abs(w0[a_k[0]]) / p_k[0] * sum(pj * fac[i][0] * fac[i][1] for pj, i in zip(p_k, a_k))
         if abs(u * ub - pd) < 1e-9 * max(ub, 1e-300):
             continue                                  # too close to the threshold to compare float with exact
         observed = (k == total - 1)
@@ -869,6 +903,99 @@ def sampler_one(ctx, B, case):
               "Measure.bosonicDyneComp vs BosonicModes.measure_dyne (accepted sample)", case, chk2)
 
 
+
+
+def oracle_sampler_complex(ctx, rng, case=None):
+    """bosonic measure_dyne on a state with a conjugate pair of complex-mean, complex-weight peaks (the cat-state
+    representation) plus a real peak, generator scripted: every accept / reject decision must be `u · envelope < target`
+    with the target density Re Σ w_i N(x; μ_i, Σ_i + σ) and the envelope Σ |w_i| e^{½ μ_Iᵀ W μ_I} N(x; Re μ_i, Σ_i + σ), both
+    evaluated here independently; peak-choice probabilities = normalised envelope weights; proposal = the chosen peak with
+    the real part of its mean"""
+    from strawberryfields.backends.bosonicbackend.bosoniccircuit import BosonicModes
+    if case is None:
+        n = rng.randint(1, 2)
+        mode = rng.randrange(n)
+        cov_r, cov_p = m6.rand_cov(rng, 2 * n), m6.rand_cov(rng, 2 * n)
+        mu_r = [m6.dy(rng, -4, 4, 4) for _ in range(2 * n)]
+        mu_p = [m6.dy(rng, -4, 4, 4) for _ in range(2 * n)]
+        nu_p = [m6.dy(rng, -3, 3, 4) for _ in range(2 * n)]
+        c = [m6.dy(rng, -2, 2, 8), m6.dy(rng, -2, 2, 8)]
+        while c == [0, 0]:
+            c = [m6.dy(rng, -2, 2, 8), m6.dy(rng, -2, 2, 8)]        # a pair of weight zero would not be a complex-mean state
+        case = dict(n=n, mode=mode, cov_r=cov_r.tolist(), cov_p=cov_p.tolist(), mu_r=mu_r, mu_p=mu_p, nu_p=nu_p, c=c,
+                    covmat=(m6.phys_cov(rng, 2) if rng.random() < 0.5 else np.eye(2)).tolist(),
+                    offs=[[m6.dy(rng, -6, 6, 4), m6.dy(rng, -6, 6, 4)] for _ in range(4)],
+                    us=[rng.choice([0.99, 0.8, 0.4]), rng.choice([0.9, 0.3]), 0.0], picks=[rng.randrange(6) for _ in range(6)])
+    n, mode = case["n"], case["mode"]
+    cc = complex(*case["c"])
+    wr = 1.0 - 2 * cc.real
+    weights = np.array([wr, cc, np.conj(cc)], dtype=complex)
+    mp = np.array(case["mu_p"]) + 1j * np.array(case["nu_p"])
+    means = np.array([np.array(case["mu_r"], dtype=complex), mp, np.conj(mp)])
+    covs = np.array([case["cov_r"], case["cov_p"], case["cov_p"]], dtype=complex)
+    covmat, offs, us, picks = np.array(case["covmat"]), [np.array(o) for o in case["offs"]], case["us"], case["picks"]
+    ix = [2 * mode, 2 * mode + 1]
+    rp = dict(kind="samplercx", case=case)
+    b = BosonicModes(n)
+    b.weights, b.means, b.covs = weights.copy(), means.copy(), covs.copy()
+    counter = dict(k=0)
+
+    def mvn(mean, cov):
+        if counter["k"] >= 10:
+            raise _GiveUp()
+        v = mean + offs[counter["k"] % len(offs)]
+        counter["k"] += 1
+        return v
+    sr = m6.ScriptRNG(choice=lambda a, p: a[picks[counter["k"] % len(picks)] % len(a)], mvn=mvn,
+                      random=lambda k: us[min(k, len(us) - 1)])
+    try:
+        with sr:
+            b.measure_dyne(covmat.copy(), [mode], shots=1)
+    except _GiveUp:
+        ctx.tally("samplercx:gave-up")
+        return
+    except Exception as e:  # noqa: BLE001
+        ctx.fail("sampler-born:raises", f"bosonic measure_dyne on a complex-mean mixture raised {type(e).__name__}: {e}", rp)
+        return
+    ch, mv = sr.calls("choice"), sr.calls("multivariate_normal")
+    S = [covs[i][np.ix_(ix, ix)].real + covmat for i in range(3)]
+    W = [np.linalg.inv(x_) for x_ in S]
+    pref = [1.0 / math.sqrt(np.linalg.det(2 * np.pi * x_)) for x_ in S]
+    ubw = np.array([abs(weights[i]) * math.exp(0.5 * means[i][ix].imag @ W[i] @ means[i][ix].imag) for i in range(3)])
+    ub_ids = [i for i in range(3) if (abs(means[i][ix].imag).max() > 0) or not (weights[i].imag == 0 and weights[i].real < 0)]
+    for k in range(len(mv)):
+        ctx.oracle_cases += 1
+        pk = np.asarray(ch[k]["p"], dtype=float)
+        if [int(i) for i in ch[k]["a"]] != ub_ids or abs(pk.sum() - 1) > 1e-9 or np.any(pk < 0) or pk[0] <= 0:
+            ctx.fail("sampler-born:proposal-weights", f"bosonic measure_dyne (complex-mean peaks): peak choice over {list(ch[k]['a'])} with "
+                     f"p = {pk.tolist()}; the envelope peaks are {ub_ids}", rp)
+            return
+        if not np.allclose(pk, ubw[ub_ids] / ubw[ub_ids].sum(), atol=1e-12):
+            ctx.tally("samplercx:other-envelope-weights")      # allowed as long as the accept test uses the same envelope (below)
+        peak = ch[k]["a"][picks[k % len(picks)] % len(ch[k]["a"])]
+        if not (np.allclose(mv[k]["mean"], means[peak][ix].real, atol=1e-12) and np.allclose(mv[k]["cov"], S[peak], atol=1e-12)):
+            ctx.fail("sampler-born:proposal", f"bosonic measure_dyne (complex-mean peaks): proposal N({mv[k]['mean'].tolist()}, ...) for peak {peak}, "
+                     f"expected mean {means[peak][ix].real.tolist()} and cov {S[peak].tolist()}", rp)
+            return
+        x = mv[k]["mean"] + offs[k % len(offs)]
+        pd = sum((weights[i] * pref[i] * np.exp(-0.5 * (x - means[i][ix]) @ W[i] @ (x - means[i][ix]))) for i in range(3)).real
+        # envelope implied by the proposal: Z · Σ p_i N(x; Re μ_i, S_i) with Z fixed by the real peak 0 (|w_0| = Z p_0);
+        # any such envelope gives Born-distributed samples iff it dominates the target and the accept test is u·envelope < target
+        Z = abs(weights[0]) / pk[0]
+        ub = Z * sum(pk[j] * pref[i] * math.exp(-0.5 * (x - means[i][ix].real) @ W[i] @ (x - means[i][ix].real))
+                     for j, i in enumerate(ub_ids))
+        if pd > ub * (1 + 1e-9) + 1e-15:
+            ctx.fail("sampler-born:not-dominated", f"bosonic measure_dyne (complex-mean peaks): at the proposed point {x.tolist()} the target density "
+                     f"{pd:.6g} exceeds the envelope {ub:.6g} implied by the proposal", rp)
+            return
+        u = us[min(k, len(us) - 1)]
+        if abs(u * ub - pd) < 1e-9 * max(ub, 1e-300):
+            continue
+        observed = (k == len(mv) - 1)
+        if observed != (u * ub < pd):
+            ctx.fail("sampler-born:accept-test", f"bosonic measure_dyne (complex-mean peaks, weights {weights.tolist()}): proposed point {x.tolist()} "
+                     f"with uniform draw {u} was {'accepted' if observed else 'rejected'} although target = {pd:.6g}, envelope = {ub:.6g}", rp)
+            return
 
 
 class _Stub:
@@ -2056,6 +2183,9 @@ def oracle(ctx, sf):
     for it in range(ctx.n(6, 60)):
         ctx.count("oracle:gauss-certain", None)
         oracle_gauss_certain(ctx, sf, rng)
+    for it in range(ctx.n(16, 160)):
+        ctx.count("oracle:sampler-complex", None)
+        oracle_sampler_complex(ctx, rng)
     for it in range(ctx.n(8, 80)):
         case = gen_multi_dyne_case(rng, ["gaussian", "bosonic"][it % 2])
         ctx.count(f"oracle:multi-dyne:{case['backend']}", case, True, sample=dict(n=case["n"], modes=case["modes"]))
@@ -2075,6 +2205,7 @@ def run(ctx, sf):
         corr_weights(ctx, B)
         corr_fock(ctx, B)
         corr_fock_dist(ctx, B)
+        corr_hermite(ctx, B)
         corr_sampler(ctx, B)
     corr_engine(ctx, B, sf)       # layout oracle always; model comparison only when the proof side is intact
     B.flush()
@@ -2093,6 +2224,8 @@ def _replay_one(ctx, sf, rp):
         oracle_fock_layout(ctx, sf, None, spec=rp["spec"])
     elif kind == "sampler":
         sampler_one(ctx, None, rp["case"])
+    elif kind == "samplercx":
+        oracle_sampler_complex(ctx, None, case=rp["case"])
     elif kind == "gausscertain":
         oracle_gauss_certain(ctx, sf, None, case=rp["case"])
     elif kind in ORACLES:
